@@ -336,18 +336,24 @@ def release_task_file(cases):
     return RELEASE_HEADER + "Definition cs : list (bool * bool * list rstep) := [\n" + ";\n".join(one(c) for c in cases) + \
         "].\nEval vm_compute in (release_diags cs).\n"
 
+def compress_reg_case(c):
+    """replace the full registry snapshot of every call by its difference to the previous one (memory and case-file size)"""
+    prev = {}
+    for s in c["steps"]:
+        snap = s.pop("snap")
+        cur = {} if (snap and snap[0][0] == "panic") else {int(i): int(k) for i, k in snap}
+        s["snap_removed"] = [i for i, k in prev.items() if cur.get(i) != k]
+        s["snap_added"] = sorted((i, k) for i, k in cur.items() if prev.get(i) != k)
+        s["snap_len"] = len(cur)
+        prev = cur
+    return c
+
 def release_reg_file(cases):
     def one(c):
-        prev = {}
         xs = []
         for s in c["steps"]:
-            snap = s["snap"]
-            cur = {} if (snap and snap[0][0] == "panic") else {int(i): int(k) for i, k in snap}
-            removed = [i for i, k in prev.items() if cur.get(i) != k]
-            added = sorted((i, k) for i, k in cur.items() if prev.get(i) != k)
-            prev = cur
-            xs.append("mkD (%s) %s %s %s %s %s %s" % (coq_call(dict(s, snap=[])), lst([nat(coq_id(i)) for i in removed]),
-                      lst(["(%s, %s)" % (nat(coq_id(i)), KIND[k]) for i, k in added]),
+            xs.append("mkD (%s) %s %s %s %s %s %s" % (coq_call(dict(s, snap=[])), lst([nat(coq_id(i)) for i in s["snap_removed"]]),
+                      lst(["(%s, %s)" % (nat(coq_id(i)), KIND[k]) for i, k in s["snap_added"]]),
                       zlit(s["exec"]), zlit(s["tok"]), zlit(s["texec"]), zlit(s["ttok"])))
         return "(%s, %s)" % (nlist(c["init_view"]), lst(xs))
     return RELEASE_HEADER + "Definition cs : list (aview * list dcall) := [\n" + ";\n".join(one(c) for c in cases) + \
@@ -381,7 +387,7 @@ def check_C13(run, replay=None):
     thorough = tier != "quick"
     # long histories: quick ~1e3 calls per history, thorough ~1e5 calls in total per kind
     task_cases, task_steps = (28, 1000) if not thorough else (210, 1200)
-    reg_hist, reg_steps = (4, 1000) if not thorough else (64, 1600)
+    reg_hist, reg_steps = (4, 1000) if not thorough else (48, 1400)
     tm_cases, tm_steps = (16, 1000) if not thorough else (100, 2000)
     C.proof_stage(run, "C13")
     rp = json.load(open(replay)) if replay else None
@@ -403,17 +409,20 @@ def check_C13(run, replay=None):
             crashed = 0
             for l in out.splitlines():
                 if l.startswith("{"):
+                    if kind == "reg" and '"codec":"json"' in l[:200] and not rp: continue   # identical to bincode here (C09 compares them)
                     c = json.loads(l)
                     if c.get("harness_panic"): crashed += 1; continue
+                    if kind == "reg": c = compress_reg_case(c)
                     c["kind"] = kind; c["origin"] = "generated seed=%d" % seed; kinds[kind].append(c)
+            del out
             run.oblige("harness-run %s histories completed" % kind, rc == 0 and crashed == 0, "rc=%d crashed=%d %s" % (rc, crashed, out[-300:] if rc else ""))
     if rp:
         sel = {(c.get("kind"), c.get("case"), c.get("host"), c.get("codec")) for c in rp.get("cases", [])}
         for k in kinds:
             again = [c for c in kinds[k] if (c.get("kind"), c.get("case"), c.get("host"), c.get("codec")) in sel]
             kinds[k] = again if again else [c for c in rp.get("cases", []) if c.get("kind") == k]
-    # the registry histories: only the bincode bridge is evaluated in the quick tier (the json one is identical in C09)
-    if not thorough: kinds["reg"] = [c for c in kinds["reg"] if c.get("codec") != "json"]
+    for c in kinds["reg"]:
+        if c["steps"] and "snap" in c["steps"][0]: compress_reg_case(c)     # cases from a replay / corpus file
     results = []
     results += [("task",) + r for r in eval_release(run, "C13_task", kinds["task"], release_task_file)]
     results += [("reg",) + r for r in eval_release(run, "C13_reg", kinds["reg"], release_reg_file)]
@@ -423,7 +432,7 @@ def check_C13(run, replay=None):
     for kind, c, v, step, mask in results:
         n_steps = len(c["steps"])
         calls[kind] += n_steps; lens["%s:%d+" % (kind, n_steps // 250 * 250)] += 1
-        if kind == "reg": peak["max registry occupancy"] = max(peak["max registry occupancy"], max((len(s["snap"]) for s in c["steps"]), default=0))
+        if kind == "reg": peak["max registry occupancy"] = max(peak["max registry occupancy"], max((s["snap_len"] for s in c["steps"]), default=0))
         if kind == "task": peak["max live task futures"] = max(peak["max live task futures"], max((s["tok"] for s in c["steps"]), default=0))
         run.note_case((kind, c.get("host"), c.get("codec"), c.get("case"), n_steps, json.dumps(c["steps"][-3:], sort_keys=True)), nontrivial=n_steps >= 100)
         run.cov["traces_validated_against_impl"] += 1
